@@ -2,7 +2,7 @@
   C18 helper lemmas: UTF-8 decoding (`decodeRune`, `fullRune`).
 -/
 import CedarGo.Model.Text.Scanner
-namespace CedarGo.Text
+namespace CedarGo.Text.Lx
 
 theorem seqLen_le (b : Nat) : seqLen b ≤ 4 := by unfold seqLen; split <;> (try split) <;> (try split) <;> (try split) <;> (try split) <;> omega
 
@@ -219,4 +219,4 @@ theorem decodeRune_prefix (p t : List UInt8) (hp : p ≠ []) (hw : (decodeRune (
   rwa [List.take_left'] at this
   rfl
 
-end CedarGo.Text
+end CedarGo.Text.Lx
